@@ -1,0 +1,52 @@
+//go:build verif
+// +build verif
+
+package skiplist
+
+import (
+	"sync/atomic"
+	"unsafe"
+)
+
+// VerifHook is called at every yield point when non-nil. A hook may block
+// (deterministic scheduling by a test harness) and may log (trace recording).
+// Set it before the structures under test are used.
+var VerifHook func(pt int, a, b unsafe.Pointer, x int)
+
+func verifYield(pt int, a, b unsafe.Pointer, x int) {
+	if h := VerifHook; h != nil {
+		h(pt, a, b, x)
+	}
+}
+
+// VerifNext returns the successor pointer and the deleted mark of n at level.
+func VerifNext(n *Node, level int) (*Node, bool) { return n.getNext(level) }
+
+// VerifLevel returns the current maximum level of the skiplist.
+func (s *Skiplist) VerifLevel() int { return int(atomic.LoadInt32(&s.level)) }
+
+// VerifSession returns the counters of a barrier session.
+func VerifSession(bs *BarrierSession) (live int32, seqno uint64, closed int32, ref unsafe.Pointer) {
+	return atomic.LoadInt32(bs.liveCount), bs.seqno, atomic.LoadInt32(&bs.closed), bs.objectRef
+}
+
+// VerifBarrier returns the shared state of an access barrier.
+func VerifBarrier(ab *AccessBarrier) (cur *BarrierSession, activeSeq, freeSeq uint64, destr int32, qlen int) {
+	cur = (*BarrierSession)(atomic.LoadPointer(&ab.session))
+	if ab.freeq != nil {
+		qlen = int(ab.freeq.GetStats().NodeCount)
+	}
+	return cur, ab.activeSeqno, ab.freeSeqno, atomic.LoadInt32(&ab.isDestructorRunning), qlen
+}
+
+// VerifBarrierOffset is the constant added to a session counter when it is closed.
+const VerifBarrierOffset = barrierFlushOffset
+
+// VerifRawStats returns the global statistics counters of the skiplist.
+func (s *Skiplist) VerifRawStats() (levelNodes [MaxLevel + 1]int64, softDeletes, allocs, frees, used int64) {
+	for i := range s.Stats.levelNodesCount {
+		levelNodes[i] = atomic.LoadInt64(&s.Stats.levelNodesCount[i])
+	}
+	return levelNodes, atomic.LoadInt64(&s.Stats.softDeletes), atomic.LoadInt64(&s.Stats.nodeAllocs),
+		atomic.LoadInt64(&s.Stats.nodeFrees), atomic.LoadInt64(&s.Stats.usedBytes)
+}
